@@ -1167,7 +1167,7 @@ func replay(r *runner.Run, path string, m *memo) {
 		r.Infra("replay: %v", err)
 		return
 	}
-	if replayCompose(r, b) || replayHosts(r, b) || replayMethods(r, b, m.ip) {
+	if replayCompose(r, b) || replayHosts(r, b) || replayOverlap(r, b, m.ip) || replayMethods(r, b, m.ip) {
 		return
 	}
 	var doc struct {
